@@ -204,6 +204,165 @@ class InPlace(ast.NodeVisitor):
                 self.hits.append(f"{f.attr}() on {base.id}")
 
 
+OPTIONAL_FETCHERS = {"get", "get_provider_data"}       # single-object look-ups: answer None when the id is not stored
+
+
+class OptionalUse:
+    """uses (`x[...]`, `x.attr`, `for … in x`) of a local bound to the answer of a single-object data-base look-up that are
+    NOT dominated by a test that the answer is not None.  Between an existence check and the look-up (two lock sections)
+    another thread may remove the object, so the look-up of an id that `exists()` has just confirmed can still answer
+    None: an unguarded use raises TypeError into the caller.  Flow-sensitive in the usual small way: `if x is not None
+    [and …]:` body, `if x is None: return/raise/continue/break` fall-through, `and` / `or` chains left to right, `not`."""
+
+    def __init__(self):
+        self.optional, self.hits = set(), []
+
+    def _is_opt_fetch(self, e):
+        if isinstance(e, ast.Call) and isinstance(e.func, ast.Attribute) and e.func.attr in OPTIONAL_FETCHERS:
+            root, last = _recv_root(e.func.value)
+            return root is not None and (last in FETCH_RECEIVERS or last is None)
+        return False
+
+    # -- what a test establishes when it is true (pos) / false (neg)
+    def pos(self, t):
+        if isinstance(t, ast.Name):
+            return {t.id}
+        if isinstance(t, ast.Compare) and len(t.ops) == 1 and isinstance(t.left, ast.Name) and \
+                isinstance(t.comparators[0], ast.Constant) and t.comparators[0].value is None:
+            return {t.left.id} if isinstance(t.ops[0], (ast.IsNot, ast.NotEq)) else set()
+        if isinstance(t, ast.BoolOp) and isinstance(t.op, ast.And):
+            return set().union(*[self.pos(v) for v in t.values])
+        if isinstance(t, ast.UnaryOp) and isinstance(t.op, ast.Not):
+            return self.neg(t.operand)
+        return set()
+
+    def neg(self, t):
+        if isinstance(t, ast.Compare) and len(t.ops) == 1 and isinstance(t.left, ast.Name) and \
+                isinstance(t.comparators[0], ast.Constant) and t.comparators[0].value is None:
+            return {t.left.id} if isinstance(t.ops[0], (ast.Is, ast.Eq)) else set()
+        if isinstance(t, ast.BoolOp) and isinstance(t.op, ast.Or):
+            return set().union(*[self.neg(v) for v in t.values])
+        if isinstance(t, ast.UnaryOp) and isinstance(t.op, ast.Not):
+            return self.pos(t.operand)
+        return set()
+
+    def expr(self, e, g):
+        """record the unguarded uses inside expression `e` evaluated where the names `g` are known to be not None"""
+        if e is None:
+            return
+        if isinstance(e, ast.BoolOp):
+            g2 = set(g)
+            for v in e.values:
+                self.expr(v, g2)
+                g2 |= self.pos(v) if isinstance(e.op, ast.And) else self.neg(v)
+            return
+        if isinstance(e, ast.IfExp):
+            self.expr(e.test, g)
+            self.expr(e.body, g | self.pos(e.test))
+            self.expr(e.orelse, g | self.neg(e.test))
+            return
+        if isinstance(e, (ast.Subscript, ast.Attribute)) and isinstance(e.value, ast.Name) and \
+                e.value.id in self.optional and e.value.id not in g:
+            what = "subscript" if isinstance(e, ast.Subscript) else f"attribute {e.attr}"
+            self.hits.append(f"{what} of {e.value.id} line {e.lineno}")
+        if isinstance(e, (ast.ListComp, ast.SetComp, ast.GeneratorExp, ast.DictComp)):
+            for c in e.generators:
+                self._iter(c.iter, g)
+        for ch in ast.iter_child_nodes(e):
+            if isinstance(ch, ast.expr):
+                self.expr(ch, g)
+            elif isinstance(ch, ast.comprehension):
+                self.expr(ch.iter, g)
+                for i in ch.ifs:
+                    self.expr(i, g)
+            elif isinstance(ch, ast.keyword):
+                self.expr(ch.value, g)
+
+    def _iter(self, it, g):
+        if isinstance(it, ast.Name) and it.id in self.optional and it.id not in g:
+            self.hits.append(f"iteration over {it.id} line {it.lineno}")
+
+    @staticmethod
+    def _exits(body):
+        return bool(body) and isinstance(body[-1], (ast.Return, ast.Raise, ast.Continue, ast.Break))
+
+    def _bind(self, target, value, g):
+        if isinstance(target, ast.Name):
+            g.discard(target.id)
+            if self._is_opt_fetch(value) or (isinstance(value, ast.Name) and value.id in self.optional):    # look-up or alias
+                if isinstance(value, ast.Name) and value.id in g:
+                    g.add(target.id)
+                self.optional.add(target.id)
+            else:
+                self.optional.discard(target.id)
+        elif isinstance(target, (ast.Tuple, ast.List)):
+            for t in target.elts:
+                self._bind(t, None, g)
+
+    def block(self, body, g):
+        """returns the guard set that holds after the block"""
+        g = set(g)
+        for st in body:
+            if isinstance(st, ast.If):
+                self.expr(st.test, g)
+                self.block(st.body, g | self.pos(st.test))
+                self.block(st.orelse, g | self.neg(st.test))
+                if self._exits(st.body):
+                    g |= self.neg(st.test)
+                if self._exits(st.orelse):
+                    g |= self.pos(st.test)
+            elif isinstance(st, (ast.Assign, ast.AnnAssign)):
+                self.expr(st.value, g)
+                for t in (st.targets if isinstance(st, ast.Assign) else [st.target]):
+                    if not isinstance(t, ast.Name):
+                        self.expr(t, g)
+                    self._bind(t, st.value, g)
+            elif isinstance(st, (ast.For, ast.AsyncFor)):
+                self.expr(st.iter, g)
+                self._iter(st.iter, g)
+                self._bind(st.target, None, g)
+                self.block(st.body, g)
+                self.block(st.orelse, g)
+            elif isinstance(st, ast.While):
+                self.expr(st.test, g)
+                self.block(st.body, g | self.pos(st.test))
+                self.block(st.orelse, g)
+            elif isinstance(st, (ast.With, ast.AsyncWith)):
+                for it in st.items:
+                    self.expr(it.context_expr, g)
+                g = self.block(st.body, g)
+            elif isinstance(st, ast.Try):
+                self.block(st.body, g)
+                for h in st.handlers:
+                    self.block(h.body, g)
+                self.block(st.orelse, g)
+                self.block(st.finalbody, g)
+            elif isinstance(st, (ast.FunctionDef, ast.AsyncFunctionDef)):
+                self.block(st.body, g)
+            else:
+                for ch in ast.iter_child_nodes(st):
+                    if isinstance(ch, ast.expr):
+                        self.expr(ch, g)
+        return g
+
+
+def optional_derefs():
+    """(method: unguarded use) for every method of the LDM sources; expected: none"""
+    out = []
+    for rel in FILES:
+        for n in ast.parse(src(rel)).body:
+            if not isinstance(n, ast.ClassDef):
+                continue
+            for m in n.body:
+                if isinstance(m, (ast.FunctionDef, ast.AsyncFunctionDef)):
+                    ou = OptionalUse()
+                    ou.block(m.body, set())
+                    base = m.lineno
+                    out += [f"{n.name}_{m.name}: " + " ".join(h.split(" line ")[0:1]) + f" (+{int(h.split(' line ')[1]) - base})"
+                            for h in ou.hits]
+    return sorted(out)
+
+
 class UserCalls(ast.NodeVisitor):
     """invocations of user-supplied callables with the lexically enclosing `with self.<lock>` sections"""
 
@@ -319,6 +478,9 @@ def gen_ldm_shape():
     o.append(f"def inplace : List String := {_strs(inplace)}\n")
     o.append("/-- explicit lock.acquire()/release() calls (invisible to the `with`-based lock map; expected: none) -/\n")
     o.append(f"def explicitLockCalls : List String := {_strs(explicit_lock_calls())}\n")
+    o.append("/-- uses of the answer of a single-object look-up (`get`, `get_provider_data`) not dominated by a not-None test: the\n"
+             "object may be removed between an existence check and the look-up (expected: none) -/\n")
+    o.append(f"def optionalDerefs : List String := {_strs(optional_derefs())}\n")
     o.append("/-- invocations of user-supplied code (consumer callbacks): (method, enclosing `with self.<lock>` sections) -/\n")
     o.append("def userCalls : List (String × List String) := ["
              + ", ".join(f'("{fn}", {_strs(st)})' for fn, st in user_calls()) + "]\n")
@@ -332,3 +494,4 @@ if __name__ == "__main__":
         print(k, sk[k])
     print("inplace", ip)
     print("userCalls", user_calls())
+    print("optionalDerefs", optional_derefs())
